@@ -5,7 +5,7 @@
     rogw/tranp/providers/syntax/resolver.py:6-130      ordered tag → classes table (→ Generated/ResolverTable.lean)
     rogw/tranp/syntax/ast/resolver.py:36-40,89-103     Resolver.load / resolve (registration order, fallback class)
     rogw/tranp/syntax/node/resolver.py:33-55           NodeResolver.resolve: first class whose match_feature accepts
-    rogw/tranp/syntax/node/definition/statement_compound.py:490-573,714-724   ClassMethod/Constructor/Method/Closure/Enum
+    rogw/tranp/syntax/node/definition/statement_compound.py:488-582,723-733   _in_class_block, ClassMethod/Constructor/Method/Closure/Enum (as of e2c3e47)
     rogw/tranp/syntax/node/definition/primary.py:50-54,86-187,222-231,253-307,378-446,543-548,700-879
                                                         ArgumentLabel, Decl*, TypesName, ImportName, Relay, ClassRef, ThisRef,
                                                         ImportPath, DecoratorPath, ListType/DictType/CallableType/CustomType, Super,
@@ -119,10 +119,15 @@ def FuncClass.name : FuncClass → Str
   | .closure => c!"Closure"
   | .function => c!"Function"
 
-def isClassMethod (f : FuncFeat) : Bool := f.decorators.head? == some (c!"classmethod")
-def isConstructor (f : FuncFeat) : Bool := f.name == c!"__init__"
-def isMethod (f : FuncFeat) : Bool := f.name != c!"__init__" && f.firstParam == some (c!"self")
-/-- `Closure.match_feature` (`statement_compound.py:569-573`) -/
+/-- `ClassMethod.match_feature` (`statement_compound.py:499-502`, after fix e2c3e47): `classmethod` anywhere in the decorator list -/
+def isClassMethod (f : FuncFeat) : Bool := f.decorators.contains c!"classmethod"
+/-- `Function._in_class_block` (`statement_compound.py:488-492`): the path ends `class_def_raw . block . function_def` -/
+def inClassBlock (f : FuncFeat) : Bool := fromEnd f.tags 3 == some c!"class_def_raw"
+/-- `Constructor.match_feature` (`statement_compound.py:521-523`) -/
+def isConstructor (f : FuncFeat) : Bool := inClassBlock f && f.name == c!"__init__"
+/-- `Method.match_feature` (`statement_compound.py:542-555`) -/
+def isMethod (f : FuncFeat) : Bool := inClassBlock f && (f.name != c!"__init__" && f.firstParam == some c!"self")
+/-- `Closure.match_feature` (`statement_compound.py:578-582`) -/
 def isClosure (f : FuncFeat) : Bool :=
   let isFunction := !f.tags.contains (c!"class_def_raw") && !f.tags.contains (c!"function_def_raw")
   let isMethod := !isFunction && fromEnd f.tags 3 == some (c!"class_def_raw")
@@ -258,7 +263,7 @@ def nameFeat (root : Entry) (p : Path) (e : Entry) : NameFeat := ⟨tagsOf root 
 def typeTags : List Str :=
   [c!"typed_getattr", c!"typed_var", c!"typed_literal", c!"typed_getitem", c!"typed_dict", c!"typed_or_expr", c!"typed_none"]
 
-/-- `Enum.match_feature` (`statement_compound.py:717-724`) -/
+/-- `Enum.match_feature` (`statement_compound.py:726-733`) -/
 def isEnum (e : Entry) : Except CErr Bool :=
   match byTags e [c!"class_def_raw", c!"inherit_arguments"] with
   | .error _ => .ok false
